@@ -777,7 +777,7 @@ def load_local_known(ctx):
 
 
 def run(ctx):
-    ctx.build(FILES)
+    ctx.build_with_translator(FILES)
     seen_sig = {}
 
     def report(sig, what, d, found_input=True):
